@@ -11,6 +11,19 @@ pub fn merge(values: &[Value]) -> Result<Value, Error> {
     iter.try_fold(first, |acc, v| merger(acc, v.to_owned()))
 }
 
+/// Adds an array element type to a set of `OneOf` variants without nesting:
+/// a `OneOf` contributes its own variants, anything else its non-optional form.
+fn insert_flat(variants: &mut BTreeSet<Value>, value: Value) {
+    match value {
+        Value::OneOf {
+            variants: inner, ..
+        } => variants.extend(inner),
+        other => {
+            variants.insert(other.as_non_optional());
+        }
+    }
+}
+
 #[expect(clippy::match_same_arms)]
 #[expect(clippy::too_many_lines)]
 #[expect(clippy::cognitive_complexity)]
@@ -719,7 +732,7 @@ pub fn merger(rhs: Value, lhs: Value) -> Result<Value, Error> {
             if elements.iter().any(Value::is_optional) || r#type.is_optional() {
                 variants.insert(Value::Null);
             }
-            variants.insert(r#type.deref().clone());
+            insert_flat(&mut variants, r#type.deref().clone());
             for element in elements {
                 variants.insert(element.as_non_optional());
             }
@@ -1077,7 +1090,7 @@ pub fn merger(rhs: Value, lhs: Value) -> Result<Value, Error> {
             if elements.iter().any(Value::is_optional) || r#type.is_optional() {
                 variants.insert(Value::Null);
             }
-            variants.insert(r#type.deref().clone());
+            insert_flat(&mut variants, r#type.deref().clone());
             for element in elements {
                 variants.insert(element.as_non_optional());
             }
